@@ -1,1 +1,76 @@
-def main : IO Unit := IO.println "driver C01: not built yet"
+import VncModel.Basic.Proto
+import VncModel.Enc.Spec
+import VncModel.Enc.Server
+/-! Line-protocol driver for C01 (encoders).  The script is produced by vlib/props/c01.py from the
+observations of harness/c01.c (two-stage pipeline: real server -> python undoes zlib/LZO with its
+own persistent streams -> this driver).
+
+ops:
+  fmt bpp depth be tc rmax gmax bmax rs gs bs      pixel format the client asked for
+  dec ENC W H PAYLOADHEX [STILLHEX]                spec-decode one rectangle payload (compressed
+                                                   chunks already inflated, `inflate := id`);
+                                                   STILLHEX = pixels of a JPEG/PNG image decoded by
+                                                   the trusted codec, in client format
+        -> "px REST HEX" (REST = number of unconsumed bytes) | "err"
+  model ENC W H SNAPHEX [args]                     faithful model of the server encoder applied to
+                                                   the snapshot -> "bytes HEX" | "raw" (fallback)
+  split corre MW MH x y w h [x y w h ...]          rfbSendRectEncodingCoRRE's splitting of the given
+                                                   rectangles -> "rects x,y,w,h ..."
+-/
+open VncModel VncModel.Proto VncModel.Enc VncModel.Enc.Spec
+
+structure DState where
+  fmt : PixFmt := ⟨32, 24, false, true, 255, 255, 255, 16, 8, 0⟩
+
+def pixelsOfHex (bpp : Nat) (s : String) : Option (List Pixel) :=
+  match unhex? s with
+  | none => none
+  | some bs =>
+    match readPixels bpp (bs.length / bpp) bs with
+    | some (px, []) => some px
+    | _ => none
+
+def hexOfPixels (bpp : Nat) (px : List Pixel) : String :=
+  hex (px.flatMap (pixBytes bpp))
+
+def natList? (l : List String) : Option (List Nat) := l.mapM (·.toNat?)
+
+def dstep (s : DState) (toks : List String) : DState × List String :=
+  match toks with
+  | "fmt" :: rest =>
+    match natList? rest with
+    | some [bpp, depth, be, tc, rm, gm, bm, rs, gs, bs] =>
+      ({ s with fmt := ⟨bpp, depth, be != 0, tc != 0, rm, gm, bm, rs, gs, bs⟩ }, ["ok"])
+    | _ => (s, ["bad-op"])
+  | "dec" :: enc :: w :: h :: payload :: more =>
+    match enc.toNat?, w.toNat?, h.toNat?, unhex? payload with
+    | some enc, some w, some h, some bs =>
+      let still : Option (List Pixel) := match more with
+        | [st] => pixelsOfHex s.fmt.bytespp st
+        | _ => none
+      let cd : Codecs := { still := { jpeg := fun _ _ => still, png := fun _ _ => still,
+                                      allowNoZlib := true } }
+      match decodeRect cd s.fmt enc ⟨w, h⟩ bs with
+      | some (px, rest) => (s, [s!"px {rest.length} {hexOfPixels s.fmt.bytespp px}"])
+      | none => (s, ["err"])
+    | _, _, _, _ => (s, ["bad-op"])
+  | "model" :: enc :: w :: h :: snap :: args =>
+    match enc.toNat?, w.toNat?, h.toNat?, pixelsOfHex s.fmt.bytespp snap, natList? args with
+    | some enc, some w, some h, some px, some args =>
+      match Server.modelRect s.fmt enc ⟨w, h⟩ px args with
+      | some (some bs) => (s, [s!"bytes {hex bs}"])
+      | some none => (s, ["raw"])
+      | none => (s, ["no-model"])
+    | _, _, _, _, _ => (s, ["bad-op"])
+  | "split" :: "corre" :: mw :: mh :: rest =>
+    match mw.toNat?, mh.toNat?, natList? rest with
+    | some mw, some mh, some l =>
+      let rec go : List Nat → List TileRect
+        | x :: y :: w :: h :: more => Server.correSplit mw mh (w + h + 2) x y w h ++ go more
+        | _ => []
+      let rs := go l
+      (s, ["rects " ++ " ".intercalate (rs.map fun r => s!"{r.x},{r.y},{r.w},{r.h}")])
+    | _, _, _ => (s, ["bad-op"])
+  | _ => (s, ["bad-op"])
+
+def main : IO Unit := runDriver ({} : DState) dstep
